@@ -41,3 +41,57 @@ Definition holds_cmd (c0 : Z) (r : request) (res : outcome Z) (raw rd : list (Z 
     match res with Err _ => true | _ => false end &&
     match raw, rd with [], [] => true | _, _ => false end && (tail =? 0).
 
+
+(* ---- sequences of calls on one ring that is drained now and then (Model/WireProxySeq.v) ---- *)
+Require Import V.Model.WireProxySeq.
+
+(* `pending`: the requests the API reported Ok for and the driver has not read yet, oldest first,
+   each with the value the API returned.  The records a drain hands out must be exactly the next
+   pending requests, in order: protocol type code, and the protocol decoder returns client id,
+   the returned correlation id and the caller's arguments. *)
+Definition record_is (c0 : Z) (rv : request * Z) (rec : Z * bytes) : bool :=
+  let '(r, v) := rv in let '(t, bs) := rec in
+  (t =? protocol_code (request_cmd r)) &&
+  match decode_cmd_spec t bs with
+  | Some (cl, co, r') => (cl =? c0) && (co =? wire_correlation_id v r) && request_eqb r' r
+  | None => false
+  end.
+
+Fixpoint after_drain (c0 : Z) (pending : list (request * Z)) (recs : list (Z * bytes)) {struct recs}
+  : option (list (request * Z)) :=
+  match recs with
+  | [] => Some pending
+  | rec :: recs' =>
+      match pending with
+      | [] => None                                   (* a record nobody asked for *)
+      | rv :: p' => if record_is c0 rv rec then after_drain c0 p' recs' else None
+      end
+  end.
+
+(* Some pending' = the observations are acceptable so far, pending' not yet delivered.
+   A call must answer Ok or Err; Ok only for a request that fits the command buffer, and it makes the
+   request pending (so it must show up as a record, exactly once, in order); Err leaves nothing. *)
+Fixpoint after_steps (c0 : Z) (pending : list (request * Z)) (ops : list op) (obs : list step_obs) {struct ops}
+  : option (list (request * Z)) :=
+  match ops, obs with
+  | [], [] => Some pending
+  | OpCall r :: ops', Call res :: obs' =>
+      match res with
+      | Ok v =>
+          if (spec_length r <=? CMD_BUF) && (draws_correlation_id r || (v =? 0))
+          then after_steps c0 (pending ++ [(r, v)]) ops' obs' else None
+      | Err _ => after_steps c0 pending ops' obs'
+      | _ => None
+      end
+  | OpDrain _ :: ops', Drained recs :: obs' =>
+      match after_drain c0 pending recs with
+      | Some p => after_steps c0 p ops' obs'
+      | None => None
+      end
+  | _, _ => None
+  end.
+
+(* a sequence that ends with the ring drained: number of Ok results = number of records delivered,
+   each record decodes to its request, refused requests left nothing *)
+Definition holds_seq (c0 : Z) (ops : list op) (obs : list step_obs) : bool :=
+  match after_steps c0 [] ops obs with Some [] => true | _ => false end.
